@@ -224,9 +224,9 @@ func vh_C09_wrapper() {
 
 var vhRegistry = map[string]func(){
 	"vh_C09_gate": vh_C09_gate, "vh_C09_execute": vh_C09_execute,
-	"vh_C09_wrapper": vh_C09_wrapper, "vh_C10_closure": vh_C10_closure, "vh_C10_wrapper": vh_C10_wrapper, "vh_C10_named": vh_C10_named,
+	"vh_C09_wrapper": vh_C09_wrapper, "vh_C09_block": vh_C09_block, "vh_C10_closure": vh_C10_closure, "vh_C10_wrapper": vh_C10_wrapper, "vh_C10_named": vh_C10_named,
 }
 
-var vhIntVars = map[string]*int{"vhMaxSteps": &vhMaxSteps, "vhNExec": &vhNExec}
+var vhIntVars = map[string]*int{"vhMaxSteps": &vhMaxSteps, "vhNExec": &vhNExec, "vhBlockOp": &vhBlockOp}
 
 var vhScenarios = map[string]func(map[string]string) bool{}
